@@ -140,8 +140,15 @@ func verifyMatchRule(ruleData map[string]string,
 	}
 	// Iterate over queue and mark consumed artifacts
 	for srcPath := range srcArtifactQueue {
+		// A rule with a source prefix only applies to artifacts located
+		// under that prefix
+		if ruleData["srcPrefix"] != "" &&
+			!strings.HasPrefix(srcPath, ruleData["srcPrefix"]) {
+			continue
+		}
+
 		// Remove optional source prefix from source artifact path
-		// Noop if prefix is empty, or artifact does not have it
+		// Noop if prefix is empty
 		srcBasePath := strings.TrimPrefix(srcPath, ruleData["srcPrefix"])
 
 		// Ignore artifacts not matched by rule pattern
